@@ -276,8 +276,10 @@ def rule_environment(ctx):
     fn, _m = alpha.canon_fields(fn, [("meta", "Substitution", "meta"), ("var", "Substitution", "var"), ("rhe", "Substitution", "rhe")], [("env", "param", 0)])
     adds = list(method_calls(fn["body"], "add_variable"))
     ctx.floor(R, "add_variable sites", len(adds), 1)
+    from pathcond import expand_value_cases
+
     for a in adds:
-        conds = conditions_to(fn["body"], a) or []
+        conds = expand_value_cases(conditions_to(fn["body"], a) or [], fn["body"])
         cs = facts_str(conds)
         var = render(strip(a["args"][0]))
         guard = any(c[0] == "if" and c[2] and render(c[1]).replace(" ", "") in ("%s.version().is_some()" % var, "meta.type_knowledge().is_local()") for c in conds)
